@@ -68,6 +68,11 @@ func Sites(p *spec.Packet) []Site {
 	return out
 }
 
+// ExtraLens / ExtraContents: lengths and contents mined from the constants
+// of the tree under test (set by the checks before enumerating).
+var ExtraLens []int
+var ExtraContents []string
+
 // DenseLens is the swept range (every length), followed by isolated
 // mid-range lengths beyond it.
 func DenseLens(thorough bool) []int {
@@ -79,7 +84,13 @@ func DenseLens(thorough bool) []int {
 	for n := 0; n <= top; n++ {
 		ls = append(ls, n)
 	}
-	return append(ls, 1500, 4095, 4096, 4097, 8191, 8192, 8193, 10000, 20000, 40000, 65000)
+	ls = append(ls, 1500, 4095, 4096, 4097, 8191, 8192, 8193, 10000, 20000, 40000, 65000)
+	for _, n := range ExtraLens {
+		if n > top && n <= 65535 {
+			ls = append(ls, n)
+		}
+	}
+	return ls
 }
 
 // PairLens is the coarse length set for sweeping two sites together.
@@ -139,6 +150,11 @@ var FilterContentsOdd = []string{
 // SpecialContents: short contents with a meaning to formatters, parsers and
 // brokers (all valid UTF-8, no NUL: legal in every MQTT string).
 var SpecialContents = []string{" ", "\t", "  ", " a ", "\n", "%", "%d%s", "/", "#", "+", "$", "a b c", "\"", "{}", "0", "-1", "..", "a,b"}
+
+// AllContents: the special contents followed by the mined ones.
+func AllContents() []string {
+	return append(append([]string{}, SpecialContents...), ExtraContents...)
+}
 
 // WithSiteContent returns a copy of base whose site holds content.
 func WithSiteContent(base *spec.Packet, site int, content string) *spec.Packet {
